@@ -771,6 +771,14 @@ def oracle(case):
                     if any(abs(p - q) > 0.00051 + 4e-7 * abs(p) for p, q in zip(u0[:3], u1[:3])) or \
                             any(abs(p - q) > 0.0051 + 2e-4 + 2 * _angle_slack(p) for p, q in zip(u0[3:], u1[3:])):
                         bad = f"box {u0} != {u1}"
+                    # ... and against the CRYST1 text that was written: the box read back, converted to cell parameters,
+                    # is the text to within float32 storage (lengths 0.0005 A, angles 0.005 deg)
+                    cr = [l for l in f.lines if l.startswith("CRYST1")]
+                    if not bad and cr:
+                        txt = [float(cr[0][a_ - 1:b_]) for a_, b_ in ((7, 15), (16, 24), (25, 33), (34, 40), (41, 47), (48, 54))]
+                        if any(abs(p - q) > 0.0005 + 4e-7 * abs(p) for p, q in zip(txt[:3], u1[:3])) or \
+                                any(abs(p - q) > 0.005 + _angle_slack(p) for p, q in zip(txt[3:], u1[3:])):
+                            bad = f"box-text CRYST1 {txt} read back as cell {u1}"
         if bad:
             v.append(("C07/roundtrip/" + bad.split()[0], bad))
             return v
@@ -885,26 +893,50 @@ LEN_EDGES = [9999.999, 10000.0, 10000.001, 99999.99, 99999.984, 12345.625, 65536
 ANGLE_EDGES = [90.0, 89.99, 90.01, 0.01, 0.5, 179.99, 179.5, 60.0, 120.0, 109.47, 45.005, 33.333]
 
 
+def _vectors_ref(ln, an):
+    """box vectors of a cell (lengths, angles in degrees), float64, independent of biotite (standard crystallographic setting)"""
+    al, be, ga = (math.radians(x) for x in an)
+    a, b, c = ln
+    cx = math.cos(be)
+    cy = (math.cos(al) - math.cos(be) * math.cos(ga)) / math.sin(ga)
+    cz2 = 1 - cx * cx - cy * cy
+    if cz2 <= 1e-9:
+        return None
+    return [[a, 0.0, 0.0], [b * math.cos(ga), b * math.sin(ga), 0.0], [c * cx, c * cy, c * math.sqrt(cz2)]]
+
+
+ANGLE_DEV = [0.01, 0.02, 0.03, 0.05, 0.1, 0.5]
+
+
 def gen_box(rng, ok=True):
-    """box vectors (float32 values) for a cell with lengths / angles on the CRYST1 column boundaries"""
-    import numpy as np
-    from biotite.structure.box import vectors_from_unitcell
-    for _ in range(200):
-        ln = [rng.choice(LEN_EDGES) if rng.random() < 0.6 else round(rng.uniform(1, 400), rng.randint(0, 3)) for _ in range(3)]
+    """box vectors (float32 values) for a cell with lengths / angles on the CRYST1 column boundaries; the vectors are
+    computed here, not with the library under test"""
+    for _ in range(300):
+        r0 = rng.random()
+        if r0 < 0.25:
+            ln = [rng.choice([0.5, 2.0, 37.5, 5000.0, 20000.0, 99999.0]) for _ in range(3)]       # very anisotropic
+        else:
+            ln = [rng.choice(LEN_EDGES) if rng.random() < 0.6 else round(rng.uniform(1, 400), rng.randint(0, 3)) for _ in range(3)]
         if not ok:
             ln[rng.randrange(3)] = rng.choice([99999.9996, 100000.0, 123456.0, 99999.999, 1e6])
         r = rng.random()
-        if r < 0.4:
-            box = [[ln[0], 0, 0], [0, ln[1], 0], [0, 0, ln[2]]]
+        if r < 0.25:
+            an = [90.0, 90.0, 90.0]
+        elif r < 0.7:
+            # one, two or three angles a few hundredths of a degree away from 90 / 60 / 120
+            base = rng.choice([90.0, 90.0, 90.0, 60.0, 120.0])
+            an = [base if base != 120.0 else 90.0] * 3 if base != 120.0 else [90.0, 90.0, 120.0]
+            if base == 60.0:
+                an = [60.0, 60.0, 60.0] if rng.random() < 0.5 else [90.0, 60.0, 90.0]
+            for k in rng.sample(range(3), rng.randint(1, 3)):
+                an[k] = round(an[k] + rng.choice([-1, 1]) * rng.choice(ANGLE_DEV), 2)
+        elif r < 0.85:
+            an = [90.0, rng.choice(ANGLE_EDGES), 90.0]
         else:
-            an = [rng.choice(ANGLE_EDGES) if rng.random() < 0.6 else round(rng.uniform(20, 160), 2) for _ in range(3)]
-            if r < 0.6:
-                an = [90.0, rng.choice(ANGLE_EDGES), 90.0]
-            with np.errstate(all="ignore"):
-                box = vectors_from_unitcell(*ln, *np.deg2rad(an))
-            if not np.isfinite(box).all():
-                continue
-            box = box.tolist()
+            an = [rng.choice(ANGLE_EDGES) if rng.random() < 0.5 else round(rng.uniform(20, 160), 2) for _ in range(3)]
+        box = _vectors_ref(ln, an)
+        if box is None:
+            continue
         box = [[f32(v) for v in row] for row in box]
         vals = cell_values(box)
         if not all(math.isfinite(v) for v in vals) or min(vals[:3]) <= 0:
